@@ -102,6 +102,20 @@ def run(ctx):
     import kneeliverse.linear_fit as lf
     rng = ctx.rng
     quick = ctx.tier == 'quick'
+    for _ in range(3 if quick else 30):
+        # DEEP recursion: long smooth convex curves on which the knee keeps landing near one end (hundreds of nested splits), and long noisy
+        # curves with hundreds of knees - whatever caps depth, iterations or the number of knees shows here
+        n = rng.randrange(650, 1100)
+        xs = np.arange(n, dtype=float)
+        u = rng.random()
+        if u < 0.4:
+            ys, fam = 4096.0 / (xs + 1.0), 'deep-hyperbola'
+        elif u < 0.7:
+            ys, fam = (xs[::-1] / 8.0) ** 2 + 1.0, 'deep-parabola'
+        else:
+            ys, fam = np.round(4096.0 * np.exp(-0.004 * xs)) / 16.0 + np.array([rng.randrange(0, 16) / 4.0 for _ in range(n)]), 'deep-noisy'
+        kind = rng.choice(['curvature', 'menger', 'curvature', 'menger', 'dfdt', 'kneedle'])
+        one(ctx, kind, np.column_stack([xs, ys]), rng.choice([0.0, 0.001, 0.01]), detfam.MIN_T2[kind], fam, False)
     for _ in range(500 if quick else 10000):
         kind = rng.choice(detfam.DETS)
         n = rng.randrange(3, 40 if quick else 120)
